@@ -100,6 +100,9 @@ def execute(case, ctx):
     if A.N == 0:
         return result()
     uses_tree = cfg.get("gravity") == "tree" or cfg.get("collision") in ("tree", "linetree")
+    if uses_tree:
+        with rb.quiet():
+            A.update_tree()     # flush deferred removals (merges flag their victim until the next tree update; a restore drops flagged particles)
     feats = []
     if A.N_var:
         probe("with_variational"); feats.append("var")
